@@ -376,6 +376,7 @@ TIES = {
     'C08': ('SrcNw.v', ['PyPrelude', 'PgmState', 'PureState', 'SrcNw', 'EquivNw'], 'EquivNw'),
     'C05': ('SrcTc.v', ['PyPrelude', 'PgmState', 'PureState', 'SrcTc', 'EquivTc'], 'EquivTc'),
     'C06': ('SrcTc.v', ['PyPrelude', 'PgmState', 'PureState', 'SrcTc', 'EquivTc'], 'EquivTc'),
+    'C07': ('SrcTr.v', ['PyPrelude', 'PgmState', 'TrState', 'SrcTr', 'EquivTr'], 'EquivTr'),
 }
 TIE_PROPS = set(TIES)
 COQ_W = '-deprecated-hint-without-locality,-deprecated-instance-without-locality,-notation-overridden'
